@@ -10,15 +10,15 @@ case "$cmd" in
   git -C /repo worktree add -q --detach "$wt" HEAD || exit 2
   trap 'git -C /repo worktree remove --force "$wt" >/dev/null 2>&1' EXIT
   cd "$wt"
-  PYTHONPATH="$wt" /venv/bin/python "$dir/demo.py" >/tmp/seed_demo_clean.log 2>&1; c=$?
+  PYTHONPATH="$wt" /venv/bin/python "$dir/demo.py" >/tmp/seed_demo_clean_$$.log 2>&1; c=$?
   git apply "$dir/patch.diff" || { echo "PATCH DOES NOT APPLY"; exit 1; }
-  PYTHONPATH="$wt" /venv/bin/python "$dir/demo.py" >/tmp/seed_demo_patched.log 2>&1; p=$?
-  PYTHONPATH="$wt" /venv/bin/python -m pytest -q -p no:cacheprovider --timeout=900 --continue-on-collection-errors --junitxml=/tmp/seed_junit.xml tests >/tmp/seed_tests.log 2>&1
+  PYTHONPATH="$wt" /venv/bin/python "$dir/demo.py" >/tmp/seed_demo_patched_$$.log 2>&1; p=$?
+  PYTHONPATH="$wt" /venv/bin/python -m pytest -q -p no:cacheprovider --timeout=900 --continue-on-collection-errors --junitxml=/tmp/seed_junit_$$.xml tests >/tmp/seed_tests_$$.log 2>&1
   python3 - <<PY
 import json, xml.etree.ElementTree as ET
 base=set(json.load(open('/root/.vp/BASELINE.json'))['stable_pass'])
 ok=set()
-for tc in ET.parse('/tmp/seed_junit.xml').getroot().iter('testcase'):
+for tc in ET.parse('/tmp/seed_junit_$$.xml').getroot().iter('testcase'):
     if not any(ch.tag in ('failure','error','skipped') for ch in tc):
         ok.add(tc.get('classname')+'::'+tc.get('name'))
 missing=sorted(base-ok)
